@@ -64,6 +64,12 @@ func attachmentCRC(a *wl.Attachment) uint32 {
 
 // checkSequential compares what a lexer run surfaced before DataEnd with the model.
 func checkSequential(w *wl.Workload, k wl.Config, res *mc.LexResult, label string) error {
+	return checkSequentialOpts(w, k, res, label, false)
+}
+
+// checkSequentialOpts: with allowRepeats, schema/channel records may be re-stated any number of
+// times (a layout choice of the producer): sets are compared instead of multisets.
+func checkSequentialOpts(w *wl.Workload, k wl.Config, res *mc.LexResult, label string, allowRepeats bool) error {
 	if res.Panic != "" {
 		return pk.Failf("panic", "%s: lexer panicked: %s", label, res.Panic)
 	}
@@ -159,6 +165,10 @@ func checkSequential(w *wl.Workload, k wl.Config, res *mc.LexResult, label strin
 	if mi != len(wantM) || ai != len(wantA) || di != len(wantD) {
 		return pk.Failf("missing", "%s: read %d/%d messages, %d/%d attachments, %d/%d metadata", label, mi, len(wantM), ai, len(wantA), di, len(wantD))
 	}
+	if allowRepeats {
+		gotS, wantS = dedupSchemas(gotS), dedupSchemas(wantS)
+		gotC, wantC = dedupChannels(gotC), dedupChannels(wantC)
+	}
 	if err := multisetSchemas(gotS, wantS); err != nil {
 		return pk.Failf("schema-multiset", "%s: %v", label, err)
 	}
@@ -166,6 +176,34 @@ func checkSequential(w *wl.Workload, k wl.Config, res *mc.LexResult, label strin
 		return pk.Failf("channel-multiset", "%s: %v", label, err)
 	}
 	return nil
+}
+
+func dedupSchemas(in []*wl.Schema) []*wl.Schema {
+	var out []*wl.Schema
+outer:
+	for _, s := range in {
+		for _, o := range out {
+			if pk.EqSchema(s, o) {
+				continue outer
+			}
+		}
+		out = append(out, s)
+	}
+	return out
+}
+
+func dedupChannels(in []*wl.Channel) []*wl.Channel {
+	var out []*wl.Channel
+outer:
+	for _, s := range in {
+		for _, o := range out {
+			if pk.EqChannel(s, o) {
+				continue outer
+			}
+		}
+		out = append(out, s)
+	}
+	return out
 }
 
 func multisetSchemas(got, want []*wl.Schema) error {
